@@ -374,6 +374,29 @@ def _decode(declared: str, stored: bytes, limit: int) -> tuple[str, bytes | None
     return "unknown", None
 
 
+def _lies(case: dict[str, Any]) -> set[str]:
+    """Which origin lies / deviations (as opposed to honest slowness, failures, redirects) a script contains."""
+    o = case["obj"]
+    out: set[str] = set()
+    rmode = (o.get("range") or {}).get("mode", "honour")
+    if rmode not in ("honour", "416", "500"):
+        out.add(f"range_{rmode}")
+    cl = (o.get("head") or {}).get("cl", "true")
+    if cl not in ("true", "absent"):
+        out.add("head_content_length")
+    pm = (o.get("probe") or {}).get("mode", "range")
+    if pm not in ("range", "200", "403", "405", "500", "404"):
+        out.add(f"probe_{pm}")
+    gl = (o.get("get") or {}).get("length", "auto")
+    if isinstance(gl, int):
+        out.add("get_content_length")
+    if "ce_override" in o or (o.get("get") or {}).get("ce", "same") != "same" or (o.get("head") or {}).get("ce", "same") != "same":
+        out.add("content_encoding")
+    if (o.get("get") or {}).get("endless"):
+        out.add("get_endless")
+    return out
+
+
 def _chain(exc: BaseException) -> list[tuple[BaseException, bool]]:
     """(exception, displayed) for the whole cause/context graph; displayed = what a traceback would print."""
     out: list[tuple[BaseException, bool]] = []
@@ -442,10 +465,26 @@ def run_shard(job: dict[str, Any]) -> dict[str, Any]:
     counters = {"read": 0, "attempts": 0}
     orig_chunk = aiohttp.streams.StreamReader._read_nowait_chunk
 
+    per_reader: dict[int, int] = {}
+    range_reads: list[tuple[int, int]] = []
+
     def counting_chunk(self: Any, n: int) -> bytes:
         data = orig_chunk(self, n)
         counters["read"] += len(data)
+        per_reader[id(self)] = per_reader.get(id(self), 0) + len(data)
         return data
+
+    orig_range_body = ef._read_range_response_body
+
+    async def watching_range_body(resp: Any, expected_size: int, config: Any) -> bytes:
+        key = id(resp.content)
+        before = per_reader.get(key, 0)
+        try:
+            return await orig_range_body(resp, expected_size, config)
+        finally:
+            range_reads.append((expected_size, per_reader.get(key, 0) - before))
+
+    ef._read_range_response_body = watching_range_body  # type: ignore[assignment]
 
     aiohttp.streams.StreamReader._read_nowait_chunk = counting_chunk  # type: ignore[method-assign]
     orig_probe = ef._fetch_with_probe
@@ -542,6 +581,8 @@ def run_shard(job: dict[str, Any]) -> dict[str, Any]:
             counters["read"] = 0
             counters["attempts"] = 0
             dec_calls.clear()
+            per_reader.clear()
+            range_reads.clear()
             records.clear()
             box: dict[str, Any] = {}
 
@@ -625,6 +666,12 @@ def run_shard(job: dict[str, Any]) -> dict[str, Any]:
                 )
             if counters["read"] > mfb:
                 chk.hit("read_beyond_cap_within_one_chunk")
+            for expected_size, consumed in list(range_reads):
+                chk.hit("range_responses_measured")
+                if consumed > min(expected_size, mfb) + 1:
+                    chk.violation("range_response_overread", f"{consumed} bytes consumed from a 206 body for a {expected_size}-byte range (cap {mfb})", wit)
+                elif consumed == expected_size + 1:
+                    chk.hit("range_sentinel_byte_read")
             eff_cap = mfb * 16 if cfgd["max_decompressed_bytes"] is None else cfgd["max_decompressed_bytes"]
             for rec in dec_calls:
                 chk.hit("decompress_calls")
@@ -690,8 +737,17 @@ def run_shard(job: dict[str, Any]) -> dict[str, Any]:
                         if len(data) == len(ref)
                         else "other"
                     )
+                    lies = _lies(case)
+                    if not lies:
+                        culprit = "honest_origin"
+                    elif how == "same_length_wrong_content" and "range_shift_honest" in lies:
+                        culprit = "shifted_content_range_accepted"
+                    elif how == "truncated" and lies & {"head_content_length", "probe_206_total_lie"}:
+                        culprit = "short_probe_length_accepted"
+                    else:
+                        culprit = "+".join(sorted(lies))[:60]
                     chk.violation(
-                        f"wrong_bytes:{'parallel' if took_parallel else 'single'}:{how}",
+                        f"wrong_bytes:{'parallel' if took_parallel else 'single'}:{how}:{culprit}",
                         f"fetch returned {len(data)} bytes that are not the object's decoded bytes ({how}; object {len(plain)} plain / {len(stored)} stored)",
                         wit,
                     )
@@ -705,7 +761,7 @@ def run_shard(job: dict[str, Any]) -> dict[str, Any]:
                     if vmode == "components":
                         chk.skip("validator_message_leaks_url_components_itself")
                         continue
-                    site = "validator_message" if "URL rejected" in str(exc) else "wrapped_request_error" if "ExternalLocation" in str(exc) else type(exc).__name__
+                    site = "validator_message" if "URL rejected" in str(exc) else "fetch_error"
                     if shown:
                         chk.violation(f"secret_in_error:{site}", f"{'/'.join(kinds2)} canary in {type(e2).__name__} reachable from the raised {type(exc).__name__}", {**wit, "canaries": kinds2, "text": _exc_text(e2)[:300]})
                     else:
@@ -764,15 +820,15 @@ def run_shard(job: dict[str, Any]) -> dict[str, Any]:
                     if e["origin"] == "B" and why is None:
                         why = "origin"
                     if why is not None:
-                        chk.violation(f"contacted_rejected_url:{kind}:{why}", "a request reached an origin for a URL the configured validator rejects", {**wit, "url": seen_url})
+                        chk.violation(f"contacted_rejected_url:{why}", "a request reached an origin for a URL the configured validator rejects", {**wit, "url": seen_url})
                     elif seen_url not in info["accepted"]:
-                        chk.violation(f"contacted_unvalidated_url:{kind}", "a request reached the origin for a URL the validator was never asked about", {**wit, "url": seen_url, "validated": sorted(info["accepted"])[:6]})
+                        chk.violation("contacted_unvalidated_url", "a request reached the origin for a URL the validator was never asked about", {**wit, "url": seen_url, "validated": sorted(info["accepted"])[:6]})
                     else:
                         chk.hit("contact_validated")
                 if "hop" in e:
                     chk.hit("redirect_hops_seen")
                     if e["hop"] > mr:
-                        chk.violation(f"redirects_exceeded:{kind}", f"request with hop index {e['hop']} > max_redirects={mr}", {**wit, "url": seen_url})
+                        chk.violation("redirects_exceeded", f"{kind} request with hop index {e['hop']} > max_redirects={mr}", {**wit, "url": seen_url})
                 if info["endless"] and e.get("status") in (200, 206) and e["method"] == "GET" and e.get("body_sent", 0) > 0:
                     chk.hit("endless_bodies_checked")
                     chk.hit("origin_bytes_sent_for_endless_bodies", int(e.get("body_sent", 0)))
@@ -788,10 +844,11 @@ def run_shard(job: dict[str, Any]) -> dict[str, Any]:
                     if per:
                         chk.hit("selfloop_seen")
                         if max(per.values()) > (mr + 1) * info["attempts"]:
-                            chk.violation(f"redirects_exceeded:{kind}:selfloop", f"{max(per.values())} requests in a self-redirect loop with max_redirects={mr}", wit)
+                            chk.violation("redirects_exceeded:selfloop", f"{max(per.values())} requests in a self-redirect loop with max_redirects={mr}", wit)
     finally:
         aiohttp.streams.StreamReader._read_nowait_chunk = orig_chunk  # type: ignore[method-assign]
         ef._fetch_with_probe = orig_probe  # type: ignore[assignment]
+        ef._read_range_response_body = orig_range_body  # type: ignore[assignment]
         codec_mod.decompress = orig_decompress  # type: ignore[assignment]
         lg.removeHandler(grab)
         lg.setLevel(old_level)
@@ -816,6 +873,8 @@ def main(tier: str, seed: int) -> int:
         "redirect_hops_seen",
         "selfloop_seen",
         "byte_bound_checked",
+        "range_responses_measured",
+        "range_sentinel_byte_read",
         "read_beyond_cap_within_one_chunk",
         "decompress_calls",
         "decompress_refused",
